@@ -163,6 +163,12 @@ Definition dpanic_toks (kind : N) (n : nat) : option (list N) :=
     the last one: the original value (token 0) is destroyed exactly once, its block returned once, the result is a sole
     owner of the clone. *)
 Definition run_dpanic (kind n k : N) : list N :=
+  if 50 <=? kind then
+    (* kinds 50..55: two values in distinct allocations, two owning handles each (Arc, OffsetArc, ArcBorrow, ThinArc,
+       ArcUnion, Arc<HeaderSlice>); every comparison, hash and format the handle kind offers is run with a payload whose
+       own trait impls read the counts through the side handles: the payload is consulted, and the count is 2 before,
+       2 at every point inside, 2 after *)
+    (if (kind <? 56) && (n =? 0) && (k =? 0) then [0; SEP; SEP; 1; 2; 2; 2; 2] else [98]) else
   if 28 <=? kind then
     (* kinds 28..33: a ZERO-SIZED header / payload with drop glue through from_header_and_uninit_slice (dropped
        uninitialised; assumed initialised and shared), from_header_and_iter, from_header_and_vec, From<Box<T>>, Arc::new:
